@@ -133,7 +133,7 @@ def run_refine(case):
 
 # ------------------------------------------------------------------------------------------ c, d, e
 def strat_variants(tier):
-    return st.tuples(_base(None), st.sampled_from(["zero_aberration", "interpolation", "cutoff"]),
+    return st.tuples(_base(None), st.sampled_from(["zero_aberration", "zero_aberration", "interpolation", "interpolation", "cutoff", "cutoff", "interpolation_large_grid"]),
                      st.sampled_from(["scalar", "list1", "list3", "array", "int"]),
                      st.sampled_from(["check", True, False]), st.floats(8.0, 30.0), st.integers(32, 48),
                      st.integers(50, 160)).map(
@@ -186,6 +186,27 @@ def run_variants(case):
             return Outcome(failure("interpolation_dependence", "interpolated vs direct radial integrals differ by %.3g (custom) / %.3g (defaults); window %.3g degree %d"
                                    % (e1, e2, case["window"], case["degree"]), interp=str(case["interp"])), True, labels)
         return Outcome(None, len(krho) >= 2, labels, metrics={"interp_custom": e1, "interp_default": e2})
+    if v == "interpolation_large_grid":
+        # a whole image in one call: thousands of detector points (the few-point cases above never fill an internal block)
+        k = gen.wavevec(o)
+        nx, ny = 40 + case["degree"] % 33, 40 + case["npts"] % 33
+        krho_max = float(krho.max()) if len(krho) and krho.max() > 1 else 30.0
+        span = 2 * krho_max / math.sqrt(2.0) / k
+        grid = hp.detector_grid((nx, ny), (span / nx, span / ny))
+        c0 = (span / 2 * (0.3 + 0.4 * case["frac"][0][0]), span / 2 * (0.3 + 0.4 * (case["frac"][0][1] / (2 * math.pi))), kz / k)
+        sph2 = Sphere(n=sph.n, r=sph.r, center=c0)
+        fa = calc_field(grid, sph2, theory=MieLens(lens_angle=beta, calculator_accuracy_kwargs={"interpolate_integrals": False}), **kw).values
+        fb = calc_field(grid, sph2, theory=MieLens(lens_angle=beta, calculator_accuracy_kwargs={"interpolate_integrals": True}), **kw).values
+        fc = calc_field(grid, sph2, theory=MieLens(lens_angle=beta), **kw).values
+        scale = np.abs(fb).max()
+        e1 = np.abs(fa - fb).max() / scale
+        e2 = np.abs(fc - fb).max() / scale
+        labels.append("points_%d" % (1000 * ((nx * ny) // 1000)))
+        if max(e1, e2) > 1e-6 * TOLX or not np.isfinite(e1 + e2):
+            i = int(np.argmax(np.abs(fa - fb).max(axis=0).ravel())) if fa.shape == fb.shape else -1
+            return Outcome(failure("interpolation_dependence_grid", "%dx%d grid: direct vs interpolated radial integrals differ by %.3g, defaults vs interpolated by %.3g "
+                                   "(largest at flattened pixel %d)" % (nx, ny, e1, e2, i)), True, labels)
+        return Outcome(None, nx * ny >= 2048, labels, metrics={"interp_grid_direct": e1, "interp_grid_default": e2})
     # cutoff: beyond k rho >= 3.9 * quad_npts the field is exactly zero, just below finite
     npts = case["npts"]
     k = gen.wavevec(o)
@@ -212,7 +233,7 @@ SUBCHECKS = [
     Sub("quadrature_refinement", strat_refine, run_refine, 640, 8000,
         "MieLens quad_npts 100 -> 200 -> 400 (Phi<=200) and Lens q -> 2q (k rho sin b <= 40): results agree",
         tolerances={"rel": 1e-7}, budget_quick=100),
-    Sub("aberration_interpolation_cutoff", strat_variants, run_variants, 2400, 40000,
+    Sub("aberration_interpolation_cutoff", strat_variants, run_variants, 2800, 40000,
         "AberratedMieLens with zero aberration given as 0.0 / 0 / [0] / [0,0,0] / zeros(4) is bit-equal to MieLens; "
         "interpolate_integrals in {check, True, False} with window 8-30 and degree 32-48 agree with direct evaluation; field "
         "exactly 0 for k rho >= 3.9 quad_npts and non-zero below",
